@@ -312,7 +312,7 @@ func (c *Comparer) field(v reflect.Value, n *Node, fi int, f Field, path string)
 		if len(got) != len(want) || strings.Join(got, "\x00") != strings.Join(want, "\x00") {
 			c.add(fp, "value", "user-implemented captures saw %q, want %q", got, want)
 		}
-	case FPars, FParsV, FParss, FCust, FCusts:
+	case FPars, FParsV, FParss, FCust, FCusts, FParsR:
 		var want []string
 		for _, e := range evs {
 			want = append(want, e.Vals...)
@@ -336,7 +336,7 @@ func (c *Comparer) field(v reflect.Value, n *Node, fi int, f Field, path string)
 			for i := 0; i < fv.Len(); i++ {
 				got = append(got, piText(fv.Index(i)))
 			}
-		case FPars:
+		case FPars, FParsR:
 			if !fv.IsNil() {
 				got = []string{fv.Elem().Field(0).String()}
 			}
@@ -566,14 +566,14 @@ func (c *Comparer) Leaks(v reflect.Value, n *Node, uni int, path string) {
 			if !subseq(got, vals) && !(f.Kind == FCust && len(got) == 1 && contains(vals, got[0])) {
 				c.add(fp, "leak", "%q holds custom productions that are not on the accepted path %q", got, vals)
 			}
-		case FPars, FParsV, FParss:
+		case FPars, FParsV, FParss, FParsR:
 			var vals []string
 			for _, e := range evs {
 				vals = append(vals, e.Vals...)
 			}
 			var got []string
 			switch f.Kind {
-			case FPars:
+			case FPars, FParsR:
 				if !fv.IsNil() {
 					got = []string{fv.Elem().Field(0).String()}
 				}
